@@ -473,6 +473,12 @@ func (b *BMC) termStr(t *smt.Term, bt *bmcTmpl, inst int) string {
 		}
 		return t.Ref()
 	case "var":
+		if t.Name == "verif_timebound" {
+			if b.narrow {
+				return fmt.Sprintf("(_ bv%d %d)", 1<<(vW-2), vW)
+			}
+			return fmt.Sprintf("(_ bv%d 64)", uint64(1)<<40)
+		}
 		// symbols of the root thread are global (other threads read the
 		// configuration it created); all others are private to an instance
 		if bt.vars[t.Name] && bt != b.tmpls[0] {
@@ -641,7 +647,7 @@ func (b *BMC) script(query string, K int) (string, map[string]string) {
 		}
 		if t.Op == "var" {
 			n := b.termStr(t, bt, inst)
-			if !declared[n] {
+			if !declared[n] && t.Name != "verif_timebound" {
 				declared[n] = true
 				so := t.S.String()
 				if b.narrow && t.S.K == smt.KBV && t.S.W == 64 {
